@@ -11,7 +11,7 @@ from vlib import env, ihex, ir, progcheck, strategies as S
 from checks import c15
 
 PROP = 'C17'
-PROFILE = S.profile(n_items=(1, 16), far=False, big_gaps=False, w_group=0, n_consts=(0, 3), n_labels=(0, 4), odd_data=False)
+PROFILE = S.profile(n_items=(1, 16), far=False, big_gaps=False, w_group=0, n_consts=(0, 3), n_labels=(0, 4), odd_data=False, labelval_direct=False)
 N = {'quick': 640, 'thorough': 30000}
 SENTINEL = {'out': b'OLD-BINARY\x00\x01', 'lab': b'old_label 0x00000bad\n', 'hex': b':00000001FF\n'}
 CLI = [sys.executable, '-c', 'import sys; from bronzebeard.asm import cli_main; sys.exit(cli_main())']
